@@ -694,6 +694,8 @@ pub struct Inversion {
     pub detail: String,
     /// also a violation when "too busy" counts what this round itself put on the other worker
     pub also_generous: bool,
+    /// the dispatched lower-priority task and the waiting higher-priority one share a request class
+    pub same_class: bool,
 }
 
 /// C15 oracle. Returns the inversions of the round (empty = property holds on this round).
@@ -809,6 +811,7 @@ pub fn c15_oracle(o: &Outcome) -> Vec<Inversion> {
                 continue;
             }
             out.push(Inversion {
+                same_class: l_rq == h_rq,
                 also_generous: excused_generous.is_none(),
                 detail: format!(
                     "task {l} (priority {l_p}, request {}) was dispatched to worker {w} while ready task {h} (priority {h_p}, request {}) stayed undispatched; free({w}) at round start = {:?}, minus same-round dispatches there with priority >= {h_p} [{}] leaves {:?}, which fits {:?}; no other worker is capable-but-busy for it{}",
@@ -1594,6 +1597,16 @@ fn check_c15(tier: &str) -> i32 {
         for idx in &failing {
             println!("FAIL {} :: {}", insts[*idx].text(), results[*idx].decision);
         }
+    }
+    // ---- dynamic half: the same pairwise oracle on every scheduling round of Engine A's
+    // explorations of the priority / pre-sending scenarios (ready queues as histories leave them)
+    let dyn_machinery = crate::checks::run_c15_dynamic(tier, &mut report);
+    if !dyn_machinery.is_empty() {
+        for m in &dyn_machinery {
+            eprintln!("machinery: {m}");
+        }
+        let rc = report.finish();
+        return if rc == 1 { 1 } else { 2 };
     }
     if audit_fail > 0 || unstable > 0 {
         eprintln!(
